@@ -12,6 +12,9 @@ import (
 
 type CaseURI struct {
 	U B `json:"uri"`
+	// WellFormed: a sip:/sips: URI built component by component (user possibly holding ';' '?' '&' '=' '/'):
+	// "';' and '?' before an '@' belong to the user part" - it has to be accepted
+	WellFormed bool `json:"well_formed,omitempty"`
 }
 
 type uriComp struct {
@@ -92,6 +95,9 @@ func evalURI(c CaseURI) Result {
 		return viol("ParseURI(%s) = (%v, %d): position outside the input", c.U, e, pos)
 	}
 	if e != 0 {
+		if c.WellFormed {
+			return viol("ParseURI(%s) = (%v, %d): a well-formed URI built from its components is rejected", c.U, e, pos)
+		}
 		return ok(false, "rejected")
 	}
 	// the same result on a structure that was used for another URI and Reset()
@@ -256,7 +262,8 @@ var C14URI = Register(&Check[CaseURI]{
 			u := append(append(append([]byte{}, f...), '@'), sec[schemeLen(sec):]...)
 			return CaseURI{U: u}
 		case 0:
-			return CaseURI{U: genURIFull(t)}
+			sp := genURISpec(t)
+			return CaseURI{U: sp.Render(), WellFormed: asciiLower(sp.Scheme) != "tel:"}
 		case 1:
 			return CaseURI{U: mutate(t, genURIFull(t), 3)}
 		default:
